@@ -73,7 +73,11 @@ def units(tier, seed=0):
     psr = [n for n, e in ISA.items() if e.family == 'sys' and n.startswith(('Msr', 'Cps', 'Subs', 'Eret', 'Mrs'))]
     rest = [n for n, e in ISA.items() if e.family == 'sys' and n not in cop and n not in psr]
     us += famcheck.family_units({'sys'}, archs, TABLES, only=rest)
-    us += famcheck.family_units({'sys'}, archs, TABLES, only=psr, sym_sys=CTRL)
+    heavy = ['SubsPcLrArmA2']  # 16 opcodes x 5 shift kinds x control bits: split into two complementary units
+    us += famcheck.family_units({'sys'}, archs, TABLES, only=[n for n in psr if n not in heavy], sym_sys=CTRL)
+    us += famcheck.family_units({'sys'}, archs, TABLES, only=heavy)
+    us += famcheck.family_units({'sys'}, archs, TABLES, only=heavy, sym_sys=CTRL, tag='/ctrl-sym',
+                                fix={'opcode': 0b0010, 'type': 0})
     us += famcheck.family_units({'sys'}, archs, TABLES, only=cop, sym_sys=COPROC)
     us += famcheck.family_units({'br_misc'}, archs, TABLES, only=HINTS)
     return us
